@@ -403,6 +403,47 @@ def check_secondary(ctx, site, items, tag, extra=None):
                               check='aggregate_correspondence', **lab, **(extra or {}))
 
 
+    # ---- the expressions regenerated from clustering/base.py (Gen/NpSecondary.v; theorems source_secondary_* of Props/C05.v),
+    #      evaluated inside Coq over exact rationals with the array semantics of Model/NpVec.v on the implementation's own labels,
+    #      must reproduce probs_ / aggregate_ (square) and probs_row_ / probs_col_ / aggregate_ (bipartite)
+    cap = 40 if ctx.tier == 'quick' else 300
+    done = ctx.extra.get('source_terms_evaluated', 0)
+
+    def dense(nr, nc, t):
+        M = [[Fraction(0)] * nc for _ in range(nr)]
+        for (i, j, w) in t:
+            M[i][j] += Fraction(w)
+        return clist(M, lambda row: clist(row, cq))
+    src = []
+    for it in nb:
+        (args, o, nr, nc, t, _) = it
+        if done + len(src) >= cap or nr > 8 or nr != nc or any(x < 0 for x in o['labels']['v']):
+            continue
+        env = '(qenv_secondary %s %d %s)' % (dense(nr, nc, t), nr, zlist(o['labels']['v']))
+        src.append((args, o, [('probs', 'src_secondary_probs'), ('aggregate', 'src_secondary_aggregate')], env))
+    for it in bp:
+        (args, o, nr, nc, t, _) = it
+        if done + len(src) >= cap or nr + nc > 9 or any(x < 0 for x in o['labels_row']['v'] + o['labels_col']['v']):
+            continue
+        env = '(qenv_secondary_bip %s %d %d %s %s)' % (dense(nr, nc, t), nr, nc, zlist(o['labels_row']['v']), zlist(o['labels_col']['v']))
+        src.append((args, o, [('probs_row', 'src_secondary_probs_row'), ('probs_col', 'src_secondary_probs_col'),
+                              ('aggregate', 'src_secondary_aggregate_bip')], env))
+    exprs = ['(%s)' % ', '.join('map (map qz3) (qmresult (qvdenote %s %s))' % (env, term) for _, term in pairs)
+             for (_, _, pairs, env) in src]
+    if exprs:
+        vals = safe_coq_eval(ctx, 'c05src' + tag, ['Base.Util', 'Model.NpExpr', 'Model.NpVec', 'Gen.NpSecondary'], exprs,
+                             prelude='Definition qz3 (q : Q) : Z * Z := (Qnum q, Zpos (Qden q)).\n', shard=40)
+        for (args, o, pairs, env), v in zip(src, vals or []):
+            ctx.extra['source_terms_evaluated'] = ctx.extra.get('source_terms_evaluated', 0) + 1
+            ctx.count('source_term:_secondary_outputs', ('src', tag, args), True)
+            for (key, term), mv in zip(pairs, v):
+                if o.get(key) is not None and not mat_close(o[key], unpair(mv)):
+                    ctx.violation(site, 'the expression regenerated from clustering/base.py (%s), evaluated with the array semantics of '
+                                  'Model/NpVec.v on the reported labels, differs from %s_' % (term, key), case=args,
+                                  expected=[[float(x) for x in row] for row in unpair(mv)], observed=o[key],
+                                  check='source_term', term=term, **(extra or {}))
+
+
 # ------------------------------------------------------------------------------------------------
 # part 3: Louvain.fit / Leiden.fit with prescribed optimiser answers
 # ------------------------------------------------------------------------------------------------
